@@ -1,8 +1,12 @@
 ENGINES=[
- dict(name="envx",path="engine/vf.h",serves_properties=["C19"],kind_free_text="bounded-exhaustive enumeration / deviation-bounded choice explorer over the real code, fork-sharded with crash isolation"),
+ dict(name="envx",path="engine/vf.h",serves_properties=["C19","C15"],kind_free_text="bounded-exhaustive enumeration / deviation-bounded choice explorer over the real code, fork-sharded with crash isolation"),
 ]
 NOT_YET={}
 chk("C19","envx","exploration",
  "Every value of a 27-type universe is round-tripped through the real archive; every truncation, every 4-byte length-field rewrite (menu incl. rem+1..rem+3 and 2^32-k), every 00/01/ff byte substitution of every valid archive and every token sequence up to a depth is loaded by the real code under ASan+UBSan and compared with a strict reference chunk reader. Complete within those bounds; inputs outside the alphabets are not covered.",
  "Trusted: the strict reference reader in harness/C19 as the definition of the archive format; GCC ASan/UBSan; throwing any std::exception counts as a safe rejection.",
  "bounded-exhaustive input enumeration of the real loader vs. a strict reference chunk reader")
+chk("C15","envx","exploration",
+ "All byte strings of length 0..2 on every output path of escape/urlencode/base64url (string, streambuf, ostream, template filters through their 128-byte filter buffer, text/textarea widgets), base64 blocks of length 3 (16^3 grid quick, all 2^24 thorough), lengths 0..1024 for the size formulas with canary and exact-size heap buffers, every sink capacity 0..len(output) as an environment answer, and the decoders on all short strings over adversarial alphabets; each compared with reference codecs written in the harness. Complete within those bounds.",
+ "Trusted: reference un-escape/percent/base64url codecs in harness/C15; ASan for out-of-buffer writes. Failure *reporting* on a short sink is not demanded (the statement does not), only that what was delivered is a prefix of the correct output.",
+ "bounded-exhaustive input and sink-capacity enumeration vs reference codecs")
